@@ -11,6 +11,7 @@ def main():
     ap.add_argument('prop', nargs='?')
     ap.add_argument('--tier', default=os.environ.get('VERIF_TIER', 'quick'))
     ap.add_argument('--replay')
+    ap.add_argument('--only', help='debug: run only the cases whose repr contains this text (never used by registered commands)')
     a = ap.parse_args()
     seed = int(os.environ.get('VERIF_SEED', '0') or 0)
     if a.replay:
@@ -18,7 +19,7 @@ def main():
         sys.exit(replay.main(a.replay))
     from pyvc import engine
     try:
-        code, ev = engine.check(a.prop, a.tier, seed)
+        code, ev = engine.check(a.prop, a.tier, seed, only=a.only)
     except Exception:
         import traceback; traceback.print_exc()
         print('CHECKER-FAULT: uncaught exception in the checker')
